@@ -379,7 +379,8 @@ func genCall(r *rand.Rand) c19Call {
 	default:
 		// render.Auto: content negotiation
 		v := genValue(r)
-		for !v.JSONOK || !v.XMLOK { // a value every supported format can carry
+		firstFails := chance(r, 1, 4) // the first supported type cannot encode the value: the failure must be reported
+		for !firstFails && (!v.JSONOK || !v.XMLOK) { // a value every supported format can carry
 			v = genValue(r)
 		}
 		supported := map[string]string{"application/json": "json", "text/plain": "text", "application/xml": "xml", "text/xml": "xml"}
@@ -415,6 +416,24 @@ func genCall(r *rand.Rand) c19Call {
 				c.Req.Header.Del("Accept")
 			}
 			return render.Auto(c.Resp, c.Req, v.V)
+		}
+		if firstFails && first == "" {
+			call.MustFail, call.FailReturn = true, true // no supported type at all
+			return call
+		}
+		if firstFails {
+			// decide by the FIRST supported type only: if it cannot encode the value the error is
+			// reported (no silent switch to a later type, no success)
+			fails := map[string]bool{"json": !v.JSONOK, "text": !v.JSONOK && !isStringLike(v.V), "xml": v.XMLFail}[first]
+			if fails {
+				call.MustFail, call.FailReturn = true, true
+				return call
+			}
+			if !v.JSONOK || !v.XMLOK {
+				// the first type can carry it; keep only the status-free checks that do not need a decoder
+				call.CT = ""
+				return call
+			}
 		}
 		switch first {
 		case "json":
@@ -516,3 +535,11 @@ func runC19(e *Env) {
 }
 
 var _ http.Header
+
+func isStringLike(v any) bool {
+	switch v.(type) {
+	case string, []byte:
+		return true
+	}
+	return false
+}
